@@ -20,13 +20,21 @@ type ClientHelloSpecJSONUnmarshaler struct {
 }
 
 func (chsju *ClientHelloSpecJSONUnmarshaler) ClientHelloSpec() ClientHelloSpec {
-	return ClientHelloSpec{
-		CipherSuites:       chsju.CipherSuites.CipherSuites(),
-		CompressionMethods: chsju.CompressionMethods.CompressionMethods(),
-		Extensions:         chsju.Extensions.Extensions(),
-		TLSVersMin:         chsju.TLSVersMin,
-		TLSVersMax:         chsju.TLSVersMax,
+	spec := ClientHelloSpec{
+		TLSVersMin: chsju.TLSVersMin,
+		TLSVersMax: chsju.TLSVersMax,
 	}
+	// members that were absent from (or null in) the JSON document are left empty
+	if chsju.CipherSuites != nil {
+		spec.CipherSuites = chsju.CipherSuites.CipherSuites()
+	}
+	if chsju.CompressionMethods != nil {
+		spec.CompressionMethods = chsju.CompressionMethods.CompressionMethods()
+	}
+	if chsju.Extensions != nil {
+		spec.Extensions = chsju.Extensions.Extensions()
+	}
+	return spec
 }
 
 type CipherSuitesJSONUnmarshaler struct {
